@@ -1046,6 +1046,9 @@ void gen_c12(Gen &g) {
   Plan &p = g.p;
   p.probe = true;
   int ntasks = 1 + (int)r.below(3);
+  // now and then a crowd: more instances alive at once than any small table of handles would hold
+  const bool crowd = r.chance(1, 40);
+  if (crowd) ntasks = 6;
   // documented values, and integers outside the enum: small, powers of two and their neighbours, extremes
   static const int vals[] = {0, 1, 2, 0, 1, 2, 0, 1, 2, 3, 77, -1, 3, 77, -1, 4, 5, 8, 16, 31, 32, 33, 64, 65, 96, 128, 129, 255, 256, 257, 512, 1024, 65536, 65537, 0x7fffffff, -2, (int)0x80000000};
   const size_t nvals = sizeof vals / sizeof vals[0];
@@ -1062,6 +1065,14 @@ void gen_c12(Gen &g) {
     };
     new_inst(0);
     live[0] = true;
+    if (crowd) {
+      // (slots 2 and 3 are created and then left alone: they only have to be alive)
+      new_inst(1);
+      live[1] = true;
+      t.ops.push_back(mk_create(g, 2, 128));
+      t.ops.push_back(mk_create(g, 3, 128));
+      nops = std::min(nops, 6);
+    }
     for (int i = 0; i < nops; i++) {
       int slot = (int)r.below(2);
       unsigned w = (unsigned)r.below(20);
@@ -1081,6 +1092,14 @@ void gen_c12(Gen &g) {
         Op a = g.mk(OP_ASM, slot);
         a.lines = gen_program(r, (int)r.range(0, 3), 0, (int)r.below(3));
         t.ops.push_back(a);
+        continue;
+      }
+      if (w == 5 && r.chance(1, 2)) {
+        // the chunk size is no option: a call that switches fitting off leaves the three dimensions alone
+        // (only sizes below 2 here: the probe reads plain code, and any live instance may be probed at any time)
+        Op ch = g.mk(OP_CHUNK, slot);
+        ch.c = r.range(-1, 1);
+        t.ops.push_back(ch);
         continue;
       }
       if (w == 4 && r.chance(1, 2)) {
@@ -1386,6 +1405,7 @@ void gen_c19(Gen &g) {
     FileSpec f;
     f.path = "/sim/in" + std::to_string(i) + ".asm";
     f.data = file_of_size(r, size, r.coin(), r.chance(1, 8));
+    if (r.chance(1, 6)) f.kind = 4;  // readable, but owned by another user (a system file)
     p.world.files.push_back(f);
   }
   // unreadable things
